@@ -60,7 +60,7 @@ func injectLogoutFault(r *rand.Rand, l *sim.Logout) string {
 	case "version-absent":
 		l.Version = nil
 	case "dest-other":
-		l.Destination = sim.S("https://other.example.test/slo")
+		l.Destination = sim.S(pick(r, []string{"https://other.example.test/slo", ACS}))
 	case "dest-nearmiss":
 		l.Destination = sim.S(pick(r, []string{SLO + "/", strings.ToUpper(SLO), SLO + " ", " " + SLO, SLO[:len(SLO)-1]}))
 	case "dest-empty":
@@ -354,7 +354,12 @@ func runC10(c *mon.Ctx) {
 		}
 		sp.SkipSignatureValidation = skip
 		sp.IdentityProviderIssuer = cfgIssuer
-		cs.Desc("%s skip=%v cfgIssuer=%q level=%d", lc.Desc, skip, cfgIssuer, level)
+		slo := SLO
+		if r.IntN(6) == 0 {
+			slo = "" // no single-logout URL configured: only messages without a Destination are addressed to this SP
+			sp.ServiceProviderSLOURL = ""
+		}
+		cs.Desc("%s skip=%v cfgIssuer=%q slo=%q level=%d", lc.Desc, skip, cfgIssuer, slo, level)
 		cs.Input([]byte(lc.Doc))
 		enc := sim.Encode(lc.Doc, level)
 		var got logoutGot
@@ -365,7 +370,7 @@ func runC10(c *mon.Ctx) {
 			continue
 		}
 		cs.Nontrivial(cs.Description())
-		V := logoutChecks(lc.Presented, SLO, cfgIssuer)
+		V := logoutChecks(lc.Presented, slo, cfgIssuer)
 		cls := ErrClass(gerr)
 		goodSig := lc.State == "trusted"
 		badSig := lc.State == "untrusted" || lc.State == "foreign-key" || lc.State == "tampered" || lc.State == "wrapped-same"
